@@ -330,7 +330,7 @@ def main(ck):
     if not binp:
         return
     quick = ck.tier == "quick"
-    n = 8 if quick else 60
+    n = 7 if quick else 60
     # the harness has a per-history watchdog (no progress for 60 s -> the history is reported and the run ends); the
     # process timeout is the second line of defence: ~9 min in the quick tier
     if ck.replay:
